@@ -207,6 +207,21 @@ func Channels(name string, tags map[string]bool) *vtx.Profile {
 				}
 			}
 			e = append(e, E("chan", "c2", 0x4000, "A"), E("chan", "c2", 0x4001, "A"))
+			// the repeat of an established binding whose success response the server fails to write (one transient
+			// ENOBUFS): the client hears nothing, the binding is what it was
+			if a := m.Allocs["c1"]; a != nil {
+				for _, n := range nums {
+					if ch, ok := a.Chans[n]; ok {
+						for _, p := range peers {
+							if vtx.PeerSpec[p].String() == ch.Peer.String() {
+								ev := E("chan", "c1", n, p)
+								ev.Fail = "respwrite"
+								e = append(e, ev)
+							}
+						}
+					}
+				}
+			}
 
 			return append(e, vtx.AdvanceMenu(m, now, ns1, nil)...)
 		},
